@@ -307,3 +307,39 @@ def nontrivial(r, obs, events):
 
 def describe(p):
     return ["kind=" + p["kind"], "state=" + p["state"]]
+
+
+
+def extra(stats, tier, seed):
+    """API-level: a wrapper nobody holds.  `f_nocancel(f).add_done_callback(cb)` / `f_proxy(f).add_done_callback(cb)` without keeping the wrapper: it still
+    mirrors f's outcome and the callback fires (the input keeps the wrapper alive through its callback list)."""
+    import gc
+    import drive
+    from more_executors.futures import f_proxy, f_nocancel
+    known_patterns = set(k["pattern"] for k in drive.load_known(PROP))
+
+    def viol(what, pattern, detail=None):
+        v = {"what": what, "pattern": pattern, "detail": detail, "case": {"params": {}, "chooser": "none", "cseed": 0, "origin": "api"}}
+        if pattern in known_patterns:
+            stats.known.setdefault(pattern, v)
+        else:
+            stats.violations.append(v)
+    makers = [("f_nocancel", f_nocancel), ("f_proxy", f_proxy), ("f_proxy(f_nocancel)", lambda f: f_proxy(f_nocancel(f))),
+              ("f_nocancel(f_proxy)", lambda f: f_nocancel(f_proxy(f)))]
+    with det.atomic():
+        for nm, mk in makers:
+            for outcome in ("value", "error"):
+                f = Future()
+                got = []
+                mk(f).add_done_callback(lambda w: got.append((w._state, w._exception, w._result)))
+                gc.collect()
+                err = KeyError("boom")
+                if outcome == "value":
+                    f.set_result({"key": "v"})
+                else:
+                    f.set_exception(err)
+                stats.add([[17, 12, len(nm), len(outcome)]], True, None, ["api:dropped-wrapper"])
+                want = ("FINISHED", None, {"key": "v"}) if outcome == "value" else ("FINISHED", err, None)
+                if got != [want]:
+                    viol("%s(f).add_done_callback(cb) with no reference kept to the wrapper: f finished with a %s, the callback saw %r" % (nm, outcome, got),
+                         "proxy:dropped-wrapper-lost" if not got else "proxy:dropped-wrapper-wrong", nm)
